@@ -265,6 +265,15 @@ def buildfail(out_path, prop, violations, known, tag):
         raise ToolError("a scenario could not be rebuilt in the real crate although every construction call is an L1 step")
     other = 0
     for rj in v["rejects"]:
+        if rj["prop"] != prop and not rj["known"]:
+            # the state this check wanted to examine cannot even be built through the public API: on the unchanged crate
+            # that never happens (it would be a tool error); it is reported here too, naming the property L1 charges
+            other += 1
+            if len(violations) < 5:
+                rj2 = dict(rj, detail=["a scenario of this check could not be constructed: the crate deviates from L1 under " + rj["prop"], rj["detail"]])
+                violations.append(save_replay(prop, scenario_for(v["lines"], rj["line"]), rj2))
+                log(f"  reject (while constructing a scenario; L1 charges {rj['prop']}): {rj['op']} a={rj['a']} res={rj['res']} detail={json.dumps(rj['detail'])[:200]}")
+            continue
         if rj["prop"] != prop:
             other += 1
             continue
